@@ -17,7 +17,7 @@ PROPS["C18"] = {
 PROPS["C13"] = {
     "level": "exploration",
     "exhaustive": {"quick": False, "thorough": False},
-    "rule": "rapid-generated package.json documents (3 dependency sections in any combination, peerDependencies and unrelated nested keys, plain/scoped/dotted/special names, npm: aliases, non-registry specifiers, arbitrary key order, indentation, colon style, CRLF, compact layout, trailing newline) and pom.xml documents (namespaced project, optional local parent in 5 placements, properties, dependencies, dependencyManagement, version-less managed declarations, default-active and inactive profiles, pluginManagement and build plugins, comments, CDATA, entity references, versions literal / ${p} / prefix${p} / ${p}suffix / ${p}.${q} / ${project.version}, properties shared by several dependencies, properties defined in the other file or overridden by the child, the same package declared with a version in a second place) x update sets addressed to requirements present in the file; one evaluation = write + re-read of one (document, update set); non-trivial = Write returned nil for >= 1 update; distinct by hash of the case JSON",
+    "rule": "rapid-generated package.json documents (3 dependency sections in any combination, peerDependencies and unrelated nested keys, plain/scoped/dotted/special names, npm: aliases, non-registry specifiers, arbitrary key order, indentation, colon style, CRLF, compact layout, trailing newline) and pom.xml documents (namespaced project, optional local parent in 5 placements, properties, dependencies, dependencyManagement, version-less managed declarations, default-active and inactive profiles, pluginManagement and build plugins, comments, CDATA, entity references, versions literal / ${p} / prefix${p} / ${p}suffix / ${p}.${q} / ${project.version}, properties shared by several dependencies, properties defined in the other file or overridden by the child, one property name defined in several scopes at once (the dependency's own default-active profile plus an earlier/later profile, project level, the local parent or a profile of the local parent), the same package declared with a version in a second place) x update sets addressed to requirements present in the file; one evaluation = write + re-read of one (document, update set); non-trivial = Write returned nil for >= 1 update; distinct by hash of the case JSON",
     "assumptions": ["updates are addressed the way remediation.ConstructPatches (FixVulns) builds them from the requirement list the reader returns (name, version as read, dep.Type of the requirement); dependencies of inactive profiles and of pluginManagement plugins, which only the Update path reaches, the way the Maven suggester builds them (literal versions only)",
                     "all generated parents are local files (no network); dependencyManagement imports and repositories are not generated",
                     "an update names a package; every requirement entry of that package is addressed, as Manifest.PatchRequirement + ConstructPatches do (one PackageUpdate per distinct requirement key, VersionFrom taken from the last entry with that key)",
